@@ -1,0 +1,92 @@
+//go:build verif
+// +build verif
+
+package listener
+
+// Exports for the verification harness (/verif, property C19).  Built only
+// with the "verif" tag; adds no behaviour to the package.
+
+import (
+	"io"
+	"net"
+	"sort"
+	"sync"
+)
+
+// VerifNode is a dump of one patricia-tree node, children ordered by key.
+type VerifNode struct {
+	Prefix   []byte
+	Terminal bool
+	Keys     []byte
+	Next     []*VerifNode
+}
+
+// VerifTree wraps the unexported patricia tree.
+type VerifTree struct{ t *patriciaTree }
+
+// VerifNewTree builds the tree exactly as MatchPrefixBytes does.
+func VerifNewTree(bs ...[]byte) *VerifTree { return &VerifTree{t: newPatriciaTree(bs...)} }
+
+// MaxDepth is the number of bytes a matcher reads from the connection.
+func (v *VerifTree) MaxDepth() int { return v.t.maxDepth }
+
+// Match walks the tree on b (prefix or exact mode).
+func (v *VerifTree) Match(b []byte, prefix bool) bool { return v.t.root.match(b, prefix) }
+
+// MatchPrefixReader is the Matcher installed by MatchPrefix.
+func (v *VerifTree) MatchPrefixReader(r io.Reader) bool { return v.t.matchPrefix(r) }
+
+// Dump returns the structure of the tree.
+func (v *VerifTree) Dump() *VerifNode { return verifDump(v.t.root) }
+
+func verifDump(n *ptNode) *VerifNode {
+	out := &VerifNode{Prefix: n.prefix, Terminal: n.terminal}
+	keys := make([]int, 0, len(n.next))
+	for k := range n.next {
+		keys = append(keys, int(k))
+	}
+	sort.Ints(keys)
+	for _, k := range keys {
+		out.Keys = append(out.Keys, byte(k))
+		out.Next = append(out.Next, verifDump(n.next[byte(k)]))
+	}
+	return out
+}
+
+// VerifConn wraps a connection in the sniffing Conn the listener uses.
+type VerifConn struct{ c *Conn }
+
+// VerifNewConn is newConn.
+func VerifNewConn(c net.Conn) *VerifConn { return &VerifConn{c: newConn(c)} }
+
+// StartSniffing is what the listener calls before every matcher.
+func (v *VerifConn) StartSniffing() io.Reader { return v.c.startSniffing() }
+
+// DoneSniffing is what the listener calls once a matcher has matched.
+func (v *VerifConn) DoneSniffing() { v.c.doneSniffing() }
+
+// Conn is the connection handed to the matched service.
+func (v *VerifConn) Conn() net.Conn { return v.c }
+
+// VerifServe classifies one connection synchronously with the listener's
+// registered matchers, exactly as the goroutine started by Serve does.
+func (m *Listener) VerifServe(c net.Conn) {
+	var wg sync.WaitGroup
+	wg.Add(1)
+	m.serve(c, m.closing, &wg)
+}
+
+// VerifTake returns a connection queued for a listener obtained from Match,
+// without blocking.
+func VerifTake(l net.Listener) (net.Conn, bool) {
+	ml, ok := l.(muxListener)
+	if !ok {
+		return nil, false
+	}
+	select {
+	case c, ok := <-ml.connections:
+		return c, ok && c != nil
+	default:
+		return nil, false
+	}
+}
